@@ -173,7 +173,7 @@ def is_class(re, env):
 # reach deep states that uniformly random characters almost never reach).
 # ---------------------------------------------------------------------------------------------
 
-KNOWN_CHARS = list(range(32, 127)) + [10, 9, 233, 769, 28450, 128512]
+KNOWN_CHARS = list(range(32, 127)) + [10, 9, 27, 233, 769, 28450, 128512]
 
 
 def sample_class(re, env, rnd, sigma, builtins):
